@@ -10,7 +10,7 @@
    error is what the correspondence (snapshot before = snapshot after, retry = fault-free run,
    for every call index) checks on the implementation.  Statements only. *)
 From Coq Require Import NArith List.
-From MlsV Require Import Storage StorageProofs.
+From MlsV Require Import Storage StorageProofs Effects ProcessEffects EffectsInst.
 Import ListNotations.
 Local Open Scope N_scope.
 
@@ -49,3 +49,15 @@ Print Assumptions C15_key_package_fault_then_retry.
 Print Assumptions C15_insert_fault_clean.
 Print Assumptions C15_insert_uses_no_storage_when_pending.
 Print Assumptions C15_get_fault_clean.
+
+(* the effect shape of GroupStateRepository::write_to_storage, extracted from state_repo.rs on every run,
+   is the one Model/Storage.v transcribes (line numbers erased) *)
+From Coq Require Import String.
+Local Open Scope string_scope.
+Theorem C15_repository_write_has_the_modelled_shape : shape ev_repo_write =
+  [EAlt [[EFail 0]; []]; EFail 0; EAlt [[EFail 0]; []]; EFail 0; EFail 0; EFail 0;
+   EMut "self.pending_commit.inserts.clear()" 0;
+   EMut "self.pending_commit.updates.clear()" 0;
+   EAlt [[EMut "self.key_package_repo.delete()" 0; EFail 0]; []]].
+Proof. exact repo_write_shape. Qed.
+Print Assumptions C15_repository_write_has_the_modelled_shape.
